@@ -200,7 +200,7 @@ def main(ctx):
         ctx.pmap({"fw": fw, "nvx": "0"}, "props.c20:job", jobs, chunksize=1)
     ctx.coverage["distinct_nontrivial"] = int(ctx.counters["encrypted_payload_examined"])
     ctx.coverage["fault_positions_x_masks"] = int(ctx.counters["tamper_execs"])
-    need = ["history_execs", "history_ok", "progress_clean", "progress_fault_execs", "progress_fault_detected",
+    need = ["history_execs", "history_ok", "progress_clean", "progress_prefix_registration", "progress_fault_execs", "progress_fault_detected",
             "nonce_owned", "encrypted_payload_examined", "secrecy_messages_checked",
             "clear_by_config", "tamper_execs", "tamper_detected", "after_fault_clean_ok",
             "handler_invoked_positive", "structural_detected", "fault:field", "fault:trunc-end",
@@ -408,6 +408,13 @@ class Scenario:
             assert r and r[0][0] == "ok", r
         self.mark = (len(self.b.transports["originator"].sent),
                      len(self.b.transports["responder"].sent), len(self.b.router_wire))
+
+    def add_prefix_registration(self, prefix):
+        """a pattern-based registration on the responder (RegisterOptions(match='prefix'))"""
+        from autobahn.wamp.types import RegisterOptions
+        r = self.b.do(self.resp.register(self._endpoint(prefix), prefix,
+                                         options=RegisterOptions(details_arg="details", match="prefix")))
+        assert r and r[0][0] == "ok", r
 
     # --- application code on the responder ------------------------------------
     def _endpoint(self, registered_as):
@@ -908,6 +915,28 @@ def job(a):
         elif last is None or last.payload is None or last.enc_algo != "cryptobox":
             col.add("C20|not-encrypted|progress|%s|%s" % (layout, ser),
                     "the progressive RESULT carries no encrypted payload", {"kind": "progress", "layout": layout, "ser": ser})
+        # the same through a pattern-based registration: the progressive result belongs to the CALLED
+        # procedure (URI inside the ciphertext, key lookup), not to the registered pattern
+        scp = Scenario(layout, ser, "yield", PROC_A)
+        scp.progressive = True
+        scp.progress_log = []
+        scp.add_prefix_registration("com.myapp.pfx.")
+        boxp = scp.op(args, kwargs, uri="com.myapp.pfx.get.item")
+        col.evals += 1
+        st["progress_prefix_registration"] += 1
+        lastp = scp.captured.get("last")
+        if scp.progress_log != [(norm(args), norm(kwargs))] or len(boxp) != 1 or boxp[0] != ("ok", "final"):
+            col.add("C20|progress-recovery|prefix-registration|%s" % layout,
+                    "ser=%s progressive call of com.myapp.pfx.get.item (registered as prefix com.myapp.pfx.): on_progress "
+                    "saw %r, outcome %r, escapes %r" % (ser, scp.progress_log, boxp, [repr(e)[:120] for e in scp.b.escapes[:1]]),
+                    {"kind": "progress", "layout": layout, "ser": ser})
+        elif lastp is None or lastp.payload is None or lastp.enc_algo != "cryptobox":
+            col.add("C20|not-encrypted|progress|prefix-registration|%s" % layout,
+                    "ser=%s: the progressive RESULT of a prefix-registered procedure carries no encrypted payload" % ser,
+                    {"kind": "progress", "layout": layout, "ser": ser})
+        if last is None or last.payload is None or last.enc_algo != "cryptobox" or \
+                sc.progress_log != [(norm(args), norm(kwargs))]:
+            pass
         else:
             L = len(last.payload)
             faults = [{"type": "xor", "pos": p_, "mask": m_} for p_ in range(0, L, 3 if a["tier"] != "thorough" else 1)
